@@ -224,6 +224,7 @@ def run(rep, tier, seed, only=None):
     rep.functions = ["cirbo.sat.miter.build_miter", "Circuit.add_circuit / connect_circuit / get_block", "generate_pairwise_xor",
                      "Circuit.evaluate", "tseytin_transformation + is_circuit_satisfiable (stub solver)"]
     rep.bounds = {"pairs": "feature circuits x {self, retyped, inputs-reversed} + seeded pairs <=4 inputs, <=3 outputs, <=8 gates; 1..3 outputs; shared labels; custom block names; mismatched shapes"}
+    rep.bounds['prefixed twins'] = "operands holding a label and the same label under circuit1@ / circuit2@ / pairwise_xor@ / L@ / R@ (gates, inputs, outputs), left / right / both"
     rep.outside = ["block names that clash with gate labels of the operands"]
     rep.rule = "program = ordered pair of circuits; validity of the miter specification decided by z3 over all inputs"
     rep.explanation = "translation validation of build_miter"
